@@ -216,8 +216,12 @@ type rtEvent struct {
 }
 
 // registered: the types an interface-typed field may hold must be known to the recomposer (that is what the create key is for)
-func rtRecomposer() *alt.Recomposer {
-	r, err := alt.NewRecomposer(createKey, map[any]alt.RecomposeFunc{&enctypes.S1{}: nil, &enctypes.T{}: nil})
+func rtRecomposer(ck ...string) *alt.Recomposer {
+	key := createKey
+	if len(ck) > 0 && ck[0] != "" {
+		key = ck[0]
+	}
+	r, err := alt.NewRecomposer(key, map[any]alt.RecomposeFunc{&enctypes.S1{}: nil, &enctypes.T{}: nil, &enctypes.Pair[int]{}: nil, &enctypes.Pair[string]{}: nil})
 	if err != nil {
 		panic(err)
 	}
@@ -309,27 +313,33 @@ type rtAPI struct {
 	route string // dec | oj | sen
 	mode  string // low | exact | tags
 	ptr   bool   // the encoder gets a pointer (addressable value: offset based field plans)
+	ck    string // create key ("" = the harness default "^"); "type" collides with members called Type
 }
 
 // The three original routes keep their names (lower-case keys, value passed); the others add key naming modes and
 // addressable sources.
 var rtAPIs = []rtAPI{
-	{"alt.Decompose->Recompose", "dec", "low", false},
-	{"oj.Marshal->Unmarshal", "oj", "low", false},
-	{"sen.String->Unmarshal", "sen", "low", false},
-	{"alt.Decompose(ptr)->Recompose", "dec", "low", true},
-	{"oj.Marshal(ptr)->Unmarshal", "oj", "low", true},
-	{"sen.String(ptr)->Unmarshal", "sen", "low", true},
-	{"alt.Decompose/exact->Recompose", "dec", "exact", false},
-	{"oj.Marshal/exact->Unmarshal", "oj", "exact", false},
-	{"alt.Decompose(ptr)/exact->Recompose", "dec", "exact", true},
-	{"oj.Marshal(ptr)/exact->Unmarshal", "oj", "exact", true},
-	{"sen.String(ptr)/exact->Unmarshal", "sen", "exact", true},
-	{"alt.Decompose/tags->Recompose", "dec", "tags", false},
-	{"oj.Marshal/tags->Unmarshal", "oj", "tags", false},
-	{"alt.Decompose(ptr)/tags->Recompose", "dec", "tags", true},
-	{"oj.Marshal(ptr)/tags->Unmarshal", "oj", "tags", true},
-	{"sen.String(ptr)/tags->Unmarshal", "sen", "tags", true},
+	{"alt.Decompose->Recompose", "dec", "low", false, ""},
+	{"oj.Marshal->Unmarshal", "oj", "low", false, ""},
+	{"sen.String->Unmarshal", "sen", "low", false, ""},
+	{"alt.Decompose(ptr)->Recompose", "dec", "low", true, ""},
+	{"oj.Marshal(ptr)->Unmarshal", "oj", "low", true, ""},
+	{"sen.String(ptr)->Unmarshal", "sen", "low", true, ""},
+	{"alt.Decompose/exact->Recompose", "dec", "exact", false, ""},
+	{"oj.Marshal/exact->Unmarshal", "oj", "exact", false, ""},
+	{"alt.Decompose(ptr)/exact->Recompose", "dec", "exact", true, ""},
+	{"oj.Marshal(ptr)/exact->Unmarshal", "oj", "exact", true, ""},
+	{"sen.String(ptr)/exact->Unmarshal", "sen", "exact", true, ""},
+	{"alt.Decompose/tags->Recompose", "dec", "tags", false, ""},
+	{"oj.Marshal/tags->Unmarshal", "oj", "tags", false, ""},
+	{"alt.Decompose(ptr)/tags->Recompose", "dec", "tags", true, ""},
+	{"oj.Marshal(ptr)/tags->Unmarshal", "oj", "tags", true, ""},
+	{"sen.String(ptr)/tags->Unmarshal", "sen", "tags", true, ""},
+	// create key "type": a member whose key is the create key must survive (and must not be taken for a type name)
+	{"alt.Decompose/ck=type->Recompose", "dec", "low", false, "type"},
+	{"alt.Decompose(ptr)/ck=type->Recompose", "dec", "low", true, "type"},
+	{"oj.Marshal(ptr)/ck=type->Unmarshal", "oj", "low", true, "type"},
+	{"sen.String(ptr)/ck=type->Unmarshal", "sen", "low", true, "type"},
 }
 
 func rtOne(api rtAPI, rv reflect.Value) (ev rtEvent) {
@@ -345,17 +355,20 @@ func rtOne(api rtAPI, rv reflect.Value) (ev rtEvent) {
 		src = rv.Addr().Interface()
 	}
 	opt := rtOptions(api.mode)
+	if api.ck != "" {
+		opt.CreateKey = api.ck
+	}
 	var err error
 	switch api.route {
 	case "dec":
-		_, err = rtRecomposer().Recompose(alt.Decompose(src, opt), ptr.Interface())
+		_, err = rtRecomposer(api.ck).Recompose(alt.Decompose(src, opt), ptr.Interface())
 	case "oj":
 		var b []byte
 		if b, err = oj.Marshal(src, opt); err == nil {
-			err = oj.Unmarshal(b, ptr.Interface(), rtRecomposer())
+			err = oj.Unmarshal(b, ptr.Interface(), rtRecomposer(api.ck))
 		}
 	case "sen":
-		err = sen.Unmarshal([]byte(sen.String(src, opt)), ptr.Interface(), rtRecomposer())
+		err = sen.Unmarshal([]byte(sen.String(src, opt)), ptr.Interface(), rtRecomposer(api.ck))
 	}
 	if err != nil {
 		ev.M = trunc(err.Error())
